@@ -22,6 +22,7 @@ ANCHORS = ['pycaption.dfxp.base:DFXPReader._convert_style', 'pycaption.dfxp.base
            'pycaption.sami:SAMIWriter._recreate_span', 'pycaption.webvtt:WebVTTWriter._group_cues_by_layout',
            'pycaption.webvtt:WebVTTWriter._convert_style_to_text_tag',
            'pycaption.webvtt:WebVTTWriter._calculate_resulting_style']
+THOROUGH_SCALE = 3        # random budgets of the thorough tier are multiplied by this
 REQUIRE = {'chain_dfxp': 50, 'chain_sami': 50, 'chain_dfxp>sami': 30, 'chain_sami>dfxp': 30, 'chain_webvtt': 50,
            'reader_captions_balance_checked': 200, 'chars_compared': 5000, 'spans_across_break': 50,
            'adjacent_spans': 50, 'empty_spans': 20, 'italic_chars': 500, 'bold_chars': 200, 'underline_chars': 200, 'positioned_captions': 30, 'suite_captions_balance_checked': 300,
